@@ -251,13 +251,10 @@ func (obj *Package) Unuse(pkg *Package) {
 
 // Import another package variable
 func (obj *Package) Import(pkg *Package, varName string) {
+	name := strings.ToLower(varName)
+	found := true
 	obj.mu.Lock()
 	pkg.mu.Lock()
-	defer func() {
-		obj.mu.Unlock()
-		pkg.mu.Unlock()
-	}()
-	name := strings.ToLower(varName)
 	if vv := pkg.vars[name]; vv != nil {
 		obj.vars[name] = vv
 		obj.Imports[name] = &Import{Pkg: pkg, Name: name}
@@ -265,6 +262,13 @@ func (obj *Package) Import(pkg *Package, varName string) {
 		obj.funcs[name] = fi
 		obj.Imports[name] = &Import{Pkg: pkg, Name: name}
 	} else {
+		found = false
+	}
+	obj.mu.Unlock()
+	pkg.mu.Unlock()
+	if !found {
+		// Raised after the locks are released as building the condition
+		// looks up functions and variables in the packages.
 		PackagePanic(NewScope(), 0, obj, "%s is not a variable or function in %s", name, pkg)
 	}
 }
@@ -299,6 +303,8 @@ func (obj *Package) SetIfHas(name string, value Object, private bool) (vv *VarVa
 	if vv = obj.vars[name]; vv != nil {
 		if vv.Export || CurrentPackage == obj || private {
 			if vv.Const {
+				unlock = false
+				obj.mu.Unlock()
 				PackagePanic(NewScope(), 0, obj, "%s is a constant and thus can't be set", name)
 			}
 			if vv.Set != nil {
@@ -336,9 +342,13 @@ func (obj *Package) DefConst(name string, value Object, doc string) (vv *VarVal)
 		if vv.Const && ObjectEqual(vv.Val, value) {
 			return vv
 		}
+		unlock = false
+		obj.mu.Unlock()
 		PackagePanic(NewScope(), 0, obj, "%s is a constant and thus can't be changed", name)
 	}
 	if obj.Locked {
+		unlock = false
+		obj.mu.Unlock()
 		PackagePanic(NewScope(), 0, obj, "Package %s is locked thus no new constants can be set.", obj.Name)
 	}
 	vv = &VarVal{Val: value, Const: true, Pkg: obj, name: name, Doc: doc}
